@@ -269,8 +269,11 @@ def tameVL (p : Bool) (xs : List Val) : Bool :=
 termination_by structural xs
 end
 
+theorem handleFld_tame (b : Bool) : fldTame false (handleFld b) = true := by
+  cases b <;> decide
+
 theorem tame_handleStruct (b : Bool) (f : Form) : tame false (handleStruct b f) = true := by
-  cases b <;> cases f <;> simp [handleStruct, tame, tameL, fldTame, nameExported] <;> decide
+  cases f <;> simp [handleStruct, handleCore, tame, tameL, handleFld_tame]
 
 theorem tameV_toEV (p : Bool) (x : Val) (h : tameV p x = true) : tame p x.toEV = true := by
   cases x with
@@ -782,5 +785,262 @@ theorem structLoop_iff : ∀ (fs : List Fld) (vs : List EV) (gs : List Fld) (ws 
           | ok o => cases o <;> simp
         · simp
 end
+
+/-! ## Stack and condition heads -/
+
+theorem kindStr_eq_iff (c c' : Cfg)
+    (hk : [Gen.kind_and, Gen.kind_or, Gen.kind_not, Gen.kind_list, Gen.kind_basic].contains c.kind = true)
+    (hk' : [Gen.kind_and, Gen.kind_or, Gen.kind_not, Gen.kind_list, Gen.kind_basic].contains c'.kind = true) :
+    c.kindStr = c'.kindStr ↔ sameKind c c' = true := by
+  unfold Cfg.kindStr sameKind
+  generalize Gen.cfgFlag_positive c.opt Gen.flag_cfold = b
+  generalize Gen.cfgFlag_positive c'.opt Gen.flag_cfold = b'
+  generalize c.kind = k at *
+  generalize c'.kind = k' at *
+  simp only [Gen.kind_and, Gen.kind_or, Gen.kind_not, Gen.kind_list, Gen.kind_basic, List.contains_cons, List.contains_nil,
+    Bool.or_false, Bool.or_eq_true, beq_iff_eq] at hk hk'
+  rcases hk with h | h | h | h | h <;> rcases hk' with h' | h' | h' | h' | h' <;> subst h <;> subst h' <;>
+    cases b <;> cases b' <;> decide
+
+theorem condHead_none_iff (kw : Text) (op : Op) (kw' : Text) (op' : Op) :
+    condHead kw op kw' op' = none ↔ (kw = kw' ∧ sameOp op op' = true) := by
+  unfold condHead
+  by_cases hkw : kw = kw'
+  · cases op <;> cases op' <;> simp [hkw, sameOp, Op.isNil, Op.text, Op.ctx]
+    all_goals (repeat' split) <;> simp_all
+  · simp [hkw]
+
+theorem sameEV_inil : ∀ (x : EV), sameEV x .inil = (strip x).isNone
+  | .ptr _ e => by simp only [sameEV, strip]; exact sameEV_inil e
+  | .iface e => by simp only [sameEV, strip]; exact sameEV_inil e
+  | .inil => by simp [sameEV, strip]
+  | .prim .. | .named .. | .uptr .. | .nilptr .. | .seq .. | .map .. | .struct .. | .func .. | .chan .. => by
+      simp [sameEV, strip]
+
+theorem handleLike_ptr (t : Nat) (e : EV) : handleLike (.ptr t e) = handleLike e := by simp [handleLike, strip]
+theorem handleLike_iface (e : EV) : handleLike (.iface e) = handleLike e := by simp [handleLike, strip]
+
+/-- a leaf of the domain that is not handle-like never compares equal to a Stack / Condition handle -/
+theorem veq_handle_ne (ty : Nat) (g : Fld) (w : EV) (hg : g.exported = false) :
+    ∀ (x : EV) (sp : Bool) (s : Side), s.d = some (.struct ty [g] [w]) →
+    domEV (ctxOf false sp) x = true → handleLike x = false → veq false sp x s ≠ .ok none
+  | .ptr t e, sp, s, hs, hx, hh => by
+      simp only [veq]
+      refine veq_handle_ne ty g w hg e _ s hs ?_ (by rw [← hh, handleLike_ptr])
+      cases sp <;> simp_all [ctxOf, domEV]
+  | .iface e, sp, s, hs, hx, hh => by
+      simp only [domEV] at hx
+      split at hx
+      · have hsp' : sp = false := by cases sp <;> simp_all [ctxOf]
+        subst hsp'
+        simp only [veq, Bool.or_self, Bool.false_eq_true, ↓reduceIte]
+        exact veq_handle_ne ty g w hg e false s hs hx (by rw [← hh, handleLike_iface])
+      · simp at hx
+  | .inil, sp, s, hs, hx, hh => by
+      have hsp' : sp = false := by cases sp <;> simp_all [ctxOf, domEV]
+      subst hsp'
+      obtain ⟨d, ok⟩ := s
+      simp only at hs; subst hs
+      simp [veq, scalarEq, matchExtra, Side.kind, kind]
+  | .named .., sp, s, hs, hx, hh => by simp [domEV] at hx
+  | .nilptr .., sp, s, hs, hx, hh => by simp [domEV] at hx
+  | .prim .., sp, s, hs, hx, hh => by
+      obtain ⟨d, ok⟩ := s
+      simp only at hs; subst hs
+      simp [veq, scalarEq, matchExtra, Side.kind, kind, isPrim, unbox]
+  | .uptr .., sp, s, hs, hx, hh => by
+      obtain ⟨d, ok⟩ := s
+      simp only at hs; subst hs
+      simp [veq, scalarEq, matchExtra, Side.kind, kind, isPrim, unbox]
+  | .func .., sp, s, hs, hx, hh => by
+      obtain ⟨d, ok⟩ := s
+      simp only at hs; subst hs
+      simp [veq, scalarEq, matchExtra, Side.kind, kind, isPrim, unbox]
+  | .chan .., sp, s, hs, hx, hh => by
+      obtain ⟨d, ok⟩ := s
+      simp only at hs; subst hs
+      simp [veq, scalarEq, matchExtra, Side.kind, kind, isPrim, unbox]
+  | .seq .., sp, s, hs, hx, hh => by
+      obtain ⟨d, ok⟩ := s
+      simp only at hs; subst hs
+      simp [veq]
+  | .map .., sp, s, hs, hx, hh => by
+      obtain ⟨d, ok⟩ := s
+      simp only at hs; subst hs
+      simp [veq]
+  | .struct t fs vs, sp, s, hs, hx, hh => by
+      obtain ⟨d, ok⟩ := s
+      simp only at hs; subst hs
+      simp only [domEV, Bool.and_eq_true, beq_iff_eq] at hx
+      simp only [veq]
+      match fs, vs, hx, hh with
+      | [], _, _, _ => simp
+      | _ :: _ :: _, _, _, _ => simp
+      | [f], [], hx, _ => simp at hx
+      | [f], _ :: _ :: _, hx, _ => simp at hx
+      | [f], [v], hx, hh =>
+        have hfe : f.exported = true := by simpa [handleLike, strip] using hh
+        simp [structLoop, hfe, hg]
+        split <;> simp
+
+/-! ## Slots, stacks, conditions -/
+
+theorem sameVals_length : ∀ (xs ys : List Val), sameVals xs ys = true → xs.length = ys.length
+  | [], [] => by simp
+  | [], _ :: _ => by simp [sameVals]
+  | _ :: _, [] => by simp [sameVals]
+  | x :: xs, y :: ys => by
+      simp only [sameVals, Bool.and_eq_true, List.length_cons, Nat.add_right_cancel_iff]
+      intro h; exact sameVals_length xs ys h.2
+
+theorem sideAny_handleStruct (b : Bool) (f : Form) :
+    (sideAny (handleStruct b f)).d = some (.struct (if b then 201 else 200) [handleFld b] [.nilptr 0]) := by
+  cases f <;> simp [handleStruct, handleCore, sideAny, unbox, deref]
+
+theorem handle_toEV_ne (x : EV) (b : Bool) (f : Form) (hx : domEV .top x = true) (hh : handleLike x = false) :
+    veq false false x (sideAny (handleStruct b f)) ≠ .ok none :=
+  veq_handle_ne _ (handleFld b) _ (by cases b <;> rfl) x false _ (sideAny_handleStruct b f) hx hh
+
+theorem yokA (y : EV) (h : domEV .top y = true) : YOK false y (sideAny y) := yok false y h
+
+theorem stack_heads (c c' : Cfg) (xs ys : List Val)
+    (hk : [Gen.kind_and, Gen.kind_or, Gen.kind_not, Gen.kind_list, Gen.kind_basic].contains c.kind = true)
+    (hk' : [Gen.kind_and, Gen.kind_or, Gen.kind_not, Gen.kind_list, Gen.kind_basic].contains c'.kind = true)
+    (L : EqRes) (hL : xs.length = ys.length → (L = .ok none ↔ sameVals xs ys = true)) :
+    ((match stackHead c xs.length c' ys.length with
+      | some e => (Except.ok (some e) : EqRes)
+      | none => L) = .ok none ↔ (c.cap == c'.cap && sameKind c c' && sameVals xs ys) = true) := by
+  cases hh : stackHead c xs.length c' ys.length with
+  | none =>
+      obtain ⟨h1, h2, h3⟩ := (stackHead_none_iff c c' xs.length ys.length).mp hh
+      simp only [hL h2, h1, (kindStr_eq_iff c c' hk hk').mp h3, beq_self_eq_true, Bool.true_and]
+  | some e =>
+      simp only [Bool.and_eq_true, beq_iff_eq]
+      constructor
+      · intro h; simp at h
+      · intro ⟨⟨h1, h2⟩, hv⟩
+        exfalso
+        have : stackHead c xs.length c' ys.length = none :=
+          (stackHead_none_iff c c' xs.length ys.length).mpr ⟨h1, sameVals_length xs ys hv, (kindStr_eq_iff c c' hk hk').mpr h2⟩
+        rw [this] at hh; simp at hh
+
+theorem cond_heads (kw : Text) (op : Op) (kw' : Text) (op' : Op) (L : EqRes) (S : Bool) (hL : L = .ok none ↔ S = true) :
+    ((match condHead kw op kw' op' with
+      | some e => (Except.ok (some e) : EqRes)
+      | none => L) = .ok none ↔ (kw == kw' && sameOp op op' && S) = true) := by
+  cases hh : condHead kw op kw' op' with
+  | none =>
+      obtain ⟨h1, h2⟩ := (condHead_none_iff kw op kw' op').mp hh
+      simp [hL, h1, h2]
+  | some e =>
+      simp only [Bool.and_eq_true, beq_iff_eq]
+      constructor
+      · intro h; simp at h
+      · intro ⟨⟨h1, h2⟩, _⟩
+        exfalso
+        have := (condHead_none_iff kw op kw' op').mpr ⟨h1, h2⟩
+        rw [this] at hh; simp at hh
+
+mutual
+theorem Val.veq_iff (hook : EqHook) : ∀ (x y : Val), inDomain x = true → inDomain y = true →
+    (Val.veq hook x y = .ok none ↔ sameDesc x y = true)
+  | .stk f c xs, y, hx, hy => by
+      simp only [inDomain, Bool.and_eq_true, Option.isNone_iff_eq_none] at hx
+      cases y with
+      | stk f' c' ys =>
+          simp only [inDomain, Bool.and_eq_true, Option.isNone_iff_eq_none] at hy
+          simp only [Val.veq, sameDesc, hx.1.1]
+          exact stack_heads c c' xs ys hx.1.2 hy.1.2 _ (fun hl => stkLoop_iff hook xs ys hl hx.2 hy.2)
+      | _ => simp [Val.veq, sameDesc]
+  | .cnd f c kw op ex, y, hx, hy => by
+      simp only [inDomain, Bool.and_eq_true, Option.isNone_iff_eq_none, beq_iff_eq] at hx
+      cases y with
+      | cnd f' c' kw' op' ex' =>
+          simp only [inDomain, Bool.and_eq_true, Option.isNone_iff_eq_none, beq_iff_eq] at hy
+          simp only [Val.veq, sameDesc, hx.1.1, hx.1.2, bne_self_eq_false, Bool.false_eq_true, ↓reduceIte]
+          exact cond_heads kw op kw' op' _ _ (Val.veq_iff hook ex ex' hx.2 hy.2)
+      | _ => simp [Val.veq, sameDesc]
+  | .nil, y, hx, hy => by
+      cases y with
+      | nil => simp [Val.veq, Val.toEV, veq, sideAny, unbox, sameDesc]
+      | leaf l =>
+          simp only [inDomain, Bool.and_eq_true, Bool.not_eq_true'] at hy
+          simp only [Val.veq, Val.toEV, sameDesc]
+          rw [veq_iff .inil false false l.toEV (sideAny l.toEV) (fun h => by simp at h) (by simp [ctxOf, domEV]) hy.1 (yokA _ hy.1)]
+          simp [sameEV]
+      | stk f' c' ys =>
+          simp only [Val.veq, Val.toEV, sameDesc, Bool.false_eq_true, iff_false]
+          exact handle_toEV_ne .inil false f' (by simp [domEV]) (by simp [handleLike, strip])
+      | cnd f' c' kw' op' ex' =>
+          simp only [Val.veq, Val.toEV, sameDesc, Bool.false_eq_true, iff_false]
+          exact handle_toEV_ne .inil true f' (by simp [domEV]) (by simp [handleLike, strip])
+      | zstk f' => simp [inDomain] at hy
+      | zcnd f' => simp [inDomain] at hy
+      | anys ys => simp [inDomain] at hy
+  | .leaf l, y, hx, hy => by
+      simp only [inDomain, Bool.and_eq_true, Bool.not_eq_true'] at hx
+      cases y with
+      | nil =>
+          simp only [Val.veq, Val.toEV, sameDesc]
+          rw [veq_iff l.toEV false false .inil (sideAny .inil) (fun h => by simp at h) hx.1 (by simp [yctx, domEV]) (yokA _ (by simp [domEV])),
+            sameEV_inil]
+      | leaf l' =>
+          simp only [inDomain, Bool.and_eq_true, Bool.not_eq_true'] at hy
+          simp only [Val.veq, Val.toEV, sameDesc]
+          exact veq_iff l.toEV false false l'.toEV (sideAny l'.toEV) (fun h => by simp at h) hx.1 hy.1 (yokA _ hy.1)
+      | stk f' c' ys =>
+          simp only [Val.veq, Val.toEV, sameDesc, Bool.false_eq_true, iff_false]
+          exact handle_toEV_ne l.toEV false f' hx.1 hx.2
+      | cnd f' c' kw' op' ex' =>
+          simp only [Val.veq, Val.toEV, sameDesc, Bool.false_eq_true, iff_false]
+          exact handle_toEV_ne l.toEV true f' hx.1 hx.2
+      | zstk f' => simp [inDomain] at hy
+      | zcnd f' => simp [inDomain] at hy
+      | anys ys => simp [inDomain] at hy
+  | .zstk f, y, hx, hy => by simp [inDomain] at hx
+  | .zcnd f, y, hx, hy => by simp [inDomain] at hx
+  | .anys xs, y, hx, hy => by simp [inDomain] at hx
+
+theorem stkLoop_iff (hook : EqHook) : ∀ (xs ys : List Val), xs.length = ys.length →
+    inDomainL xs = true → inDomainL ys = true → (stkLoop hook xs ys = .ok none ↔ sameVals xs ys = true)
+  | [], [], _, _, _ => by simp [stkLoop, sameVals]
+  | [], _ :: _, hl, _, _ => by simp at hl
+  | _ :: _, [], hl, _, _ => by simp at hl
+  | x :: xs, y :: ys, hl, hx, hy => by
+      simp only [inDomainL, Bool.and_eq_true] at hx hy
+      simp only [List.length_cons, Nat.add_right_cancel_iff] at hl
+      simp only [stkLoop, sameVals, Bool.and_eq_true]
+      rw [← Val.veq_iff hook x y hx.1 hy.1, ← stkLoop_iff hook xs ys hl hx.2 hy.2]
+      cases Val.veq hook x y with
+      | error f => simp
+      | ok o => cases o <;> simp
+end
+
+/-- the exported wrappers: inside the domain `IsEqual` decides "same description" -/
+theorem Val.IsEqual_iff (hook : EqHook) (a b : Val) (ha : a.isHandle = true)
+    (hda : inDomain a = true) (hdb : inDomain b = true) :
+    (Val.IsEqual hook false a b = .ok none ↔ sameDesc a b = true) := by
+  cases a with
+  | stk f c xs =>
+      simp only [inDomain, Bool.and_eq_true, Option.isNone_iff_eq_none] at hda
+      cases b with
+      | stk f' c' ys =>
+          simp only [inDomain, Bool.and_eq_true, Option.isNone_iff_eq_none] at hdb
+          simp only [Val.IsEqual, sameDesc, hda.1.1, Bool.false_eq_true, ↓reduceIte]
+          exact stack_heads c c' xs ys hda.1.2 hdb.1.2 _ (fun hl => stkLoop_iff hook xs ys hl hda.2 hdb.2)
+      | _ => simp [Val.IsEqual, sameDesc]
+  | cnd f c kw op ex =>
+      simp only [inDomain, Bool.and_eq_true, Option.isNone_iff_eq_none, beq_iff_eq] at hda
+      cases b with
+      | cnd f' c' kw' op' ex' =>
+          simp only [inDomain, Bool.and_eq_true, Option.isNone_iff_eq_none, beq_iff_eq] at hdb
+          simp only [Val.IsEqual, sameDesc, hda.1.1, hda.1.2, bne_self_eq_false, Bool.false_eq_true, ↓reduceIte]
+          exact cond_heads kw op kw' op' _ _ (Val.veq_iff hook ex ex' hda.2 hdb.2)
+      | _ => simp [Val.IsEqual, sameDesc, hda.1.2]
+  | zstk f => simp [inDomain] at hda
+  | zcnd f => simp [inDomain] at hda
+  | nil => simp [Val.isHandle] at ha
+  | leaf l => simp [Val.isHandle] at ha
+  | anys xs => simp [Val.isHandle] at ha
 
 end Stackage
